@@ -1,46 +1,17 @@
 package main
 
 import (
-	"bytes"
-	"encoding/json"
 	"fmt"
-	"os"
+	"time"
 
-	"github.com/ysugimoto/falco/v2/ast"
-	"github.com/ysugimoto/falco/v2/ast/codec"
-	"github.com/ysugimoto/falco/v2/lexer"
-	"github.com/ysugimoto/falco/v2/parser"
+	"github.com/pquerna/otp"
+	"github.com/pquerna/otp/totp"
 )
 
 func main() {
-	b, _ := os.ReadFile(os.Args[1])
-	var r struct {
-		Case struct {
-			Src     string `json:"src"`
-			Snippet bool   `json:"snippet"`
-		} `json:"case"`
-	}
-	json.Unmarshal(b, &r)
-	var ss []ast.Statement
-	var err error
-	if r.Case.Snippet {
-		ss, err = parser.New(lexer.NewFromString(r.Case.Src)).ParseSnippetVCL()
-	} else {
-		v, e := parser.New(lexer.NewFromString(r.Case.Src)).ParseVCL()
-		err = e
-		if v != nil {
-			ss = v.Statements
-		}
-	}
-	fmt.Println("parsed", len(ss), err)
-	for n := 1; n <= len(ss); n++ {
-		enc, err := codec.NewEncoder().Encodes(ss[:n])
-		out, derr := codec.NewDecoder(bytes.NewReader(enc)).Decode()
-		fmt.Println(n, len(enc), err, len(out), derr)
-	}
-	for i := range ss {
-		enc, err := codec.NewEncoder().Encode(ss[i])
-		out, derr := codec.NewDecoder(bytes.NewReader(enc)).Decode()
-		fmt.Println("single", i, len(enc), err, len(out), derr)
+	defer func() { fmt.Println("recovered:", recover()) }()
+	for _, k := range []string{"ORZHKZI=", "ORZHKZI"} {
+		p, err := totp.GenerateCodeCustom(k, time.Now(), totp.ValidateOpts{Period: 255, Digits: otp.DigitsSix, Algorithm: otp.AlgorithmMD5, Skew: 0})
+		fmt.Println(k, p, err)
 	}
 }
